@@ -33,10 +33,9 @@ func c19(c *Ctx) {
 	// classify
 	c.Guarded("classify/passthrough", sh, pttCall, gs(GP("http.(*ProxyServer).isPassthrough(p0, p2)", true)), 1,
 		"serveHTTP forwards directly only when the path matches a passthrough pattern", "writes on a replica would run locally")
-	c.ExpectAll("classify/passthrough-flag", append(append(c.CallArgs(sh, pttCall, 3), "|"), append(c.CallArgs(sr, pttCall, 3), c.CallArgs(snr, pttCall, 3)...)...), "true|\\||false", 5,
-		"passthrough=true is passed only by serveHTTP's passthrough branch", "the flag disables cookie tracking")
-	c.Expect("classify/passthrough-flag-sites", strings.Join(c.CallArgs(sh, pttCall, 3), ",")+"/"+strings.Join(c.CallArgs(sr, pttCall, 3), ",")+"/"+strings.Join(c.CallArgs(snr, pttCall, 3), ","), "true/false,false,false/false",
-		"serveHTTP passes true; the three serveRead sites and the serveNonRead site pass false", "a read or write forwarded with passthrough=true gets no txid cookie (read-your-writes lost)")
+	c.ExpectAll("classify/passthrough-flag/serveHTTP", c.CallArgs(sh, pttCall, 3), "true", 1, "serveHTTP's direct forward passes passthrough=true", "")
+	c.ExpectAll("classify/passthrough-flag/serveRead", c.CallArgs(sr, pttCall, 3), "false", 1, "serveRead forwards with passthrough=false", "a write forwarded with passthrough=true gets no txid cookie (read-your-writes lost)")
+	c.ExpectAll("classify/passthrough-flag/serveNonRead", c.CallArgs(snr, pttCall, 3), "false", 1, "serveNonRead forwards with passthrough=false", "a write forwarded with passthrough=true gets no txid cookie (read-your-writes lost)")
 	c.GuardedPaths("classify/read", sh, p.Calls(sr), [][]*Guard{
 		{GP(`("GET" == p2.Method)`, true), GP(`("HEAD" == p2.Method)`, true)},
 		{GP("http.(*ProxyServer).isAlwaysForwarded(p0, p2)", false)},
